@@ -164,7 +164,7 @@ mod mdns {
                         service_subtypes: subs.iter().map(|s| s.as_str()),
                         txt_kvs: txt.iter().map(|(k, v)| (k.as_str(), v.as_str())),
                     };
-                    let mut buf = vec![0u8; 1500];
+                    let mut buf = vec![0u8; 8192];
                     match h.broadcast(&svc, &mut buf, 60, 60) {
                         Ok(n) => hex(&buf[..n]),
                         Err(e) => errname(&e),
